@@ -51,7 +51,7 @@ const (
 var parkWatch = 30 * time.Millisecond
 
 type c09Step struct {
-	Op    string `json:"op"` // add | burst | adv | race | drain | addh | advh
+	Op    string `json:"op"` // add | burst | rush | adv | race | drain | addh | advh
 	N     int    `json:"n,omitempty"`
 	D     int64  `json:"d,omitempty"`
 	D2    int64  `json:"d2,omitempty"`    // advh: the jump inside reset's Stop
@@ -268,7 +268,7 @@ func stepCoq(s c09Step, fired bool) string {
 		return fmt.Sprintf("KAdvH %s %s %s", hx.CoqZ(s.D), hx.CoqZ(s.D2), hx.CoqBool(fired))
 	case "add":
 		return "KAdd"
-	case "burst":
+	case "burst", "rush":
 		return "KBurst " + hx.CoqZ(int64(s.N))
 	case "adv":
 		return "KAdv " + hx.CoqZ(s.D)
@@ -349,6 +349,21 @@ func runScript(ctx *core.Ctx, in c09Input) {
 			ok = waitWG(&wg, settleDeadline)
 			adds += s.N
 			ok = ok && pollUntil(settleDeadline, func() bool { t, _, _ := r.vc.snapshot(); return t >= tops+s.N })
+		case "rush":
+			// n Adds back to back on ONE goroutine with a single P: no Add blocks, so all n are
+			// counted before any of their token goroutines (let alone the run loop) gets to run
+			done := make(chan struct{})
+			go func() {
+				defer close(done)
+				old := runtime.GOMAXPROCS(1)
+				for j := 0; j < s.N; j++ {
+					r.rl.Add()
+				}
+				runtime.GOMAXPROCS(old)
+			}()
+			ok = waitCh(done, settleDeadline)
+			adds += s.N
+			ok = ok && pollUntil(settleDeadline, func() bool { t, p, _ := r.vc.snapshot(); return t >= tops+s.N && !p })
 		case "adv":
 			r.vc.Advance(s.D)
 			ok = pollUntil(settleDeadline, func() bool { _, p, _ := r.vc.snapshot(); return !p })
@@ -851,8 +866,8 @@ func genScript(r *hx.Rand, thorough bool) c09Input {
 			in.Steps = append(in.Steps, c09Step{Op: "add"})
 			a.add()
 		case x < 10:
-			k := r.Range(2, 4)
-			in.Steps = append(in.Steps, c09Step{Op: "burst", N: k})
+			k := r.Range(2, 5)
+			in.Steps = append(in.Steps, c09Step{Op: []string{"burst", "rush"}[r.Intn(2)], N: k})
 			for j := 0; j < k; j++ {
 				a.add()
 			}
@@ -948,6 +963,29 @@ func c09Gen(ctx *core.Ctx) {
 					finish(r, &in, true)
 					c09Run(ctx, in)
 				}
+				// (g) the count jumps past the cap: with p Adds pending in an open window, cap-p+1
+				// and cap-p+2 Adds are counted before any of their tokens is handled (and the same
+				// while idle); then everything again after the signal
+				if cp > 0 {
+					for _, p := range []int{0, 1} {
+						if p >= cp {
+							continue
+						}
+						in = base
+						in.Steps = []c09Step{{Op: "add"}}
+						for j := 0; j < p; j++ {
+							in.Steps = append(in.Steps, c09Step{Op: "add"})
+						}
+						in.Steps = append(in.Steps, c09Step{Op: "rush", N: cp - p + 1 + r.Intn(2)}, c09Step{Op: "rush", N: cp + 1},
+							c09Step{Op: "burst", N: cp + 1})
+						finish(r, &in, true)
+						c09Run(ctx, in)
+					}
+					in = base
+					in.Steps = []c09Step{{Op: "rush", N: cp + 2}, {Op: "adv", D: g[0] / 2}, {Op: "rush", N: cp}}
+					finish(r, &in, true)
+					c09Run(ctx, in)
+				}
 				// ... while idle (the call is NewTimer), and at the reset of an expired window
 				in = base
 				in.Legacy = r.Bool()
@@ -956,6 +994,16 @@ func c09Gen(ctx *core.Ctx) {
 				finish(r, &in, true)
 				c09Run(ctx, in)
 			}
+		}
+	}
+	// --- degenerate scripts: nothing was ever added; every ending
+	for _, fin := range []string{"close", "close2", "cancel", "canceladds"} {
+		for _, slow := range []bool{false, true} {
+			in := c09Input{Kind: "script", Initial: 500 * ms, Max: 5000 * ms, Cap: r.Intn(3), Slow: slow, Fin: fin}
+			if fin == "canceladds" {
+				in.FinN = 2
+			}
+			c09Run(ctx, in)
 		}
 	}
 	// --- long runs: 75 Adds that each arrive inside the open window (every arithmetic path of the
